@@ -9,6 +9,7 @@ actions:
   {"op": "execute", "sim": s, "program": p, "shots": N, "record": r | null}
   {"op": "random_draw", "n": k} | {"op": "np_random_draw", "n": k} | {"op": "random_seed", "value": v}
   {"op": "np_random_seed", "value": v} | {"op": "gc"} | {"op": "dask", "scheduler": "threads"|"synchronous", "workers": k}
+  {"op": "dask_cpu_count", "value": k}
 """
 
 import gc
@@ -55,6 +56,11 @@ def main():
                 np.random.seed(a["value"])
             elif op == "gc":
                 gc.collect()
+            elif op == "dask_cpu_count":
+                # what dask believes about the machine (cgroup / affinity dependent in reality)
+                import dask.system
+
+                dask.system.CPU_COUNT = int(a["value"])
             elif op == "dask":
                 import dask
 
